@@ -19,6 +19,11 @@ pub struct Case {
     /// request a signer restored from the BACKUP store alone is compared as well
     #[serde(default)]
     pub backup: bool,
+    /// plain memory store only: the signer is built by HandlerBuilder and well-formed AddBlock /
+    /// RemoveBlock requests are protocol messages to its root handler (the handler persists the
+    /// tracker itself)
+    #[serde(default)]
+    pub wire_blocks: bool,
 }
 
 pub struct C11;
@@ -47,6 +52,7 @@ impl Prop for C11 {
         vec![
             "payments map, excess amount, issued invoices and velocity controls are not in the property's list and are not compared here (velocity: C12)".into(),
             "restore uses the in-memory KVV store; redb reopen is covered by C16".into(),
+            "wire blocks (half of the plain-memory-store histories): the signer is built by HandlerBuilder + HsmdInit and AddBlock (valid or orphan) / RemoveBlock (valid) requests are protocol messages to its root handler, which persists the tracker itself; block requests the handler would answer with a panic stay at the tracker API with the handler's persist step".into(),
         ]
     }
     fn cases(&self, tier: Tier) -> u32 {
@@ -57,12 +63,15 @@ impl Prop for C11 {
     }
     fn strategy(&self, tier: Tier) -> BoxedStrategy<Case> {
         let n = tier.pick(30usize, 80usize);
-        (prop::bool::weighted(0.3), any::<bool>(), proptest::collection::vec(op_strat(false), 1..n), prop::bool::weighted(0.25))
-            .prop_map(|(cloud, anchors, ops, backup)| Case { cloud: cloud && !backup, anchors, ops, backup })
+        (prop::bool::weighted(0.3), any::<bool>(), proptest::collection::vec(op_strat(false), 1..n), prop::bool::weighted(0.25), prop::bool::weighted(0.5))
+            .prop_map(|(cloud, anchors, ops, backup, wire)| Case { cloud: cloud && !backup, anchors, ops, backup, wire_blocks: wire && !cloud && !backup })
             .boxed()
     }
     fn run(&self, case: &Case, st: &mut CaseStats, ctx: &Ctx) -> Result<(), Violation> {
-        let mut m = Machine::new_mode(case.cloud, case.backup, case.anchors);
+        let mut m = Machine::new_mode_wire(case.cloud, case.backup, case.anchors, case.wire_blocks);
+        if m.pw.is_some() {
+            st.class("wire_blocks_history");
+        }
         if case.backup {
             st.class("backup_persister_history");
         }
@@ -97,6 +106,9 @@ impl Prop for C11 {
             let results = m.step(op);
             let Some(r) = results.last() else { continue };
             st.class(format!("{}:{}", r.kind, r.tag));
+            if m.pw.is_some() && (r.kind == "add-block" || r.kind == "remove-block") {
+                st.class(format!("wire_blocks:{}:{}", r.kind, r.tag));
+            }
             if trace.len() < 60 {
                 trace.push(json!({"i": i, "op": op, "kind": r.kind, "result": r.tag, "err": r.err}));
             }
